@@ -483,9 +483,50 @@ def border_loops(faces):
     return loops
 
 
+def gen_big(rng):
+    """> 257 vertices (a 17..20 x 17..20 grid with holes): vertex ids beyond CPython's small-int cache as starts"""
+    n, mm = rng.randint(17, 20), rng.randint(17, 20)
+    nv, faces = seed_grid(n, mm, tri=rng.random() < 0.5, rng=rng)
+    faces = [list(F) for F in faces]
+    for _ in range(rng.choice([0, 1, 3, 6])):
+        r = ed_delete(rng, nv, faces)
+        if r and validate(*r) is None:
+            nv, faces = r
+    coords = [[i, j, (i * j) % 3] for i in range(n) for j in range(mm)]
+    nv, faces, perm = finalize(rng, nv, faces)
+    c2 = [None] * nv
+    for old, new in enumerate(perm):
+        c2[new] = coords[old]
+    return nv, faces, c2, {"seed_kind": "big-grid", "size": "big", "edits": []}
+
+
+START_FORMS = ["int", "int", "int", "kw", "np64", "np32", "npu16"]
+DET_DEFAULTS = {"only_border": False, "flag_corners": True, "corner_order": 4, "graph": True}   # as documented
+
+
+def det_variants(rng, d):
+    """how the detector is built / called / what the mesh already carries (none of it may change the answers)"""
+    d["call"] = rng.choice(["run", "run", "detect"])
+    d["types"] = rng.choice(["py", "py", "np", "int01"])
+    d["junk"] = rng.random() < 0.3
+    f = rng.random()
+    if f < 0.15:
+        d.update(DET_DEFAULTS)
+        d["form"] = "defaults"           # FeatureEdgeDetector(verbose=False): every option omitted
+    elif f < 0.4:
+        d["form"] = "pos"                # positional arguments
+    else:
+        d["form"] = "kw"
+    return d
+
+
 def gen_case(rng, tier="quick"):
     r = rng.random()
-    if r < 0.50:
+    border_only = False
+    if r < 0.03:
+        nv, faces, coords, info = gen_big(rng)
+        border_only = True
+    elif r < 0.50:
         nv, faces, info = gen_topology(rng, max_faces=60 if tier == "quick" else 90)
         coords = random_coords(rng, nv, faces)
     elif r < 0.68:
@@ -508,6 +549,8 @@ def gen_case(rng, tier="quick"):
         hard = [list(e) for e in all_edges]
     if hard is not None and len(hard) == 0:
         hard = None
+    if hard is not None:
+        hard = [e if rng.random() < 0.5 else [e[1], e[0]] for e in hard]    # declared as (A,B) or (B,A)
     normals = None
     exact = False
     if rng.random() < 0.3:
@@ -521,16 +564,30 @@ def gen_case(rng, tier="quick"):
         starts = rng.sample(starts, 24)
     others = [v for v in range(nv) if v not in set(bv)]
     rng.shuffle(others)
+    if nv > 257:
+        hi = [v for v in bv if v > 256]
+        starts = rng.sample(hi, min(6, len(hi))) + rng.sample(bv, min(2, len(bv)))
     starts += others[:3] + rng.sample([-1, nv, nv + 3, -nv - 1], 2)
+    rng.shuffle(starts)       # failing calls interleaved with good ones: the mesh must be unaffected by a caught exception
+    # how each start is passed: python int (positional / keyword), numpy integers of several widths
+    start_forms = [rng.choice(["omit", "none", "none_kw"])] + [rng.choice(START_FORMS) for _ in starts]
+    start_forms = [f if not (f == "npu16" and s < 0) else "np64" for f, s in zip(start_forms, [0] + starts)]
+    # a geometry the combinatorial half must not care about: all vertices at the same point
+    degenerate = False
+    if not border_only and rng.random() < 0.04:
+        border_only = True
+        degenerate = True
+        coords = [[0, 0, 0] for _ in range(nv)]
+    scale_exp = rng.choice([0, 0, 0, 0, -20, 40])
     dets = []
     for _ in range(2):
-        dets.append({"only_border": rng.random() < 0.3, "flag_corners": rng.random() < 0.75,
-                     "corner_order": rng.choice([4, 4, 4, 2, 3, 6, 8, 1]), "graph": rng.random() < 0.5})
+        dets.append(det_variants(rng, {"only_border": rng.random() < 0.3, "flag_corners": rng.random() < 0.75,
+                                       "corner_order": rng.choice([4, 4, 4, 2, 3, 6, 8, 1]), "graph": rng.random() < 0.5}))
     # a run on a mesh that an earlier run (other options) has already been applied to: same answers expected
-    dets.append({"only_border": rng.random() < 0.5, "flag_corners": rng.random() < 0.85,
-                 "corner_order": rng.choice([4, 4, 2, 3, 6]), "graph": rng.random() < 0.3,
-                 "prior": {"only_border": False, "flag_corners": True, "corner_order": rng.choice([4, 4, 3, 8]),
-                           "graph": False}})
+    d3 = det_variants(rng, {"only_border": rng.random() < 0.5, "flag_corners": rng.random() < 0.85,
+                            "corner_order": rng.choice([4, 4, 2, 3, 6]), "graph": rng.random() < 0.3})
+    d3["prior"] = {"only_border": False, "flag_corners": True, "corner_order": rng.choice([4, 4, 3, 8]), "graph": False}
+    dets.append(d3)
     # ONE detector object re-used: 2-4 runs on this mesh and on a second (small) mesh, options changed in between
     session = None
     if rng.random() < 0.6:
@@ -551,11 +608,14 @@ def gen_case(rng, tier="quick"):
         for _ in range(rng.choice([2, 2, 3, 4])):
             steps.append({"on": rng.choice([0, 1]) if other else 0, "only_border": rng.random() < 0.3,
                           "flag_corners": rng.random() < 0.75, "corner_order": rng.choice([4, 4, 3, 6]),
-                          "graph": rng.random() < 0.5})
+                          "graph": rng.random() < 0.5, "call": rng.choice(["run", "detect"])})
         session = {"other": other, "steps": steps}
+    if border_only:
+        dets, session, normals, exact = [], None, None, False
     info["session"] = 0 if session is None else len(session["steps"])
     info["loops"] = len(loops)
     info["normals"] = "declared" if normals else "computed"
     info["hard"] = "none" if hard is None else ("all" if len(hard) == len(all_edges) else "some")
     return {"nv": nv, "faces": faces, "coords": coords, "hard": hard, "normals": normals, "exact": exact,
-            "starts": starts, "dets": dets, "session": session, "info": info}
+            "starts": starts, "start_forms": start_forms, "scale_exp": scale_exp, "degenerate": degenerate,
+            "dets": dets, "session": session, "info": info}
